@@ -1,5 +1,6 @@
 Require Import Coq.Strings.String.
-Require Import Base.Bytes Wire.Layout Wire.Customs Wire.LayoutProofs Wire.CustomProofs Wire.Packet Gen.Packets Core.TimeProofs Props.C15.
+Require Import Props.C15.
+Require Import Base.Bytes Wire.Layout Wire.Customs Wire.LayoutProofs Wire.CustomProofs Wire.Packet Gen.Packets Core.TimeProofs Core.ExprDefs Gen.RaceLapsTab Core.RaceLapsGen Core.RaceLapsGenProofs.
 Local Open Scope N_scope.
 Check c15_time_wire_roundtrip : forall w scale x, 0 < scale -> x < pow256 w ->
   dec_atom cdec (ADur w scale) (le_enc w x) = Ok (VN (x * scale), None) /\
@@ -10,20 +11,26 @@ Check c15_time_encode_exact_value : forall w scale ms b,
   enc_atom cenc 0 (ADur w scale) (VN ms) = Ok b -> le_dec b = ms / scale /\ ms / scale < pow256 w.
 Check c15_all_time_fields_known :
   forallb (fun e => match snd e with KLayout l => layout_durs_ok l | KMso => true end) packet_table = true.
-Check c15_racelaps_wire_roundtrip : forall b, b <= 238 -> let '(tag, n) := racelaps_of_u8 b in racelaps_to_u8 tag n = b.
+Check c15_racelaps_wire_roundtrip : forall b, b <= 238 ->
+  let '(tag, n) := racelaps_of_u8 b in racelaps_to_u8 tag n = b.
 Check c15_racelaps_reserved_bytes : forall b, 239 <= b -> racelaps_of_u8 b = (0, 0).
+Check c15_racelaps_model_is_the_source :
+  (forall b, rl_dec b = racelaps_of_u8 b) /\ (forall tag n, rl_enc tag n = racelaps_to_u8 tag n).
 Check c15_racelaps_encode_never_wrong : forall tag n,
   let b := racelaps_to_u8 tag n in
-  b = 0 \/ racelaps_of_u8 b = (tag, n) \/ (tag = 1 /\ 100 <= n <= 1000 /\ racelaps_of_u8 b = (1, n - n mod 10)).
+  b = 0 \/ racelaps_of_u8 b = (tag, n) \/
+  (tag = 1 /\ 100 <= n <= 1000 /\ racelaps_of_u8 b = (1, n - n mod 10)).
 Check c15_small_durations_exact : forall d u, is_cs d = true \/ d = 7 -> u < u32max ->
   exists x, small_dec d u = Ok (d, x) /\ small_enc d x = Ok (d, u).
-Check c15_small_durations_refused_beyond_range : forall d x, is_cs d = true -> u32max <= x / 10 -> small_enc d x = Err.
+Check c15_small_durations_refused_beyond_range : forall d x,
+  is_cs d = true -> u32max <= x / 10 -> small_enc d x = Err.
 Print Assumptions c15_time_wire_roundtrip.
 Print Assumptions c15_time_encode_floor_or_refuse.
 Print Assumptions c15_time_encode_exact_value.
 Print Assumptions c15_all_time_fields_known.
 Print Assumptions c15_racelaps_wire_roundtrip.
 Print Assumptions c15_racelaps_reserved_bytes.
+Print Assumptions c15_racelaps_model_is_the_source.
 Print Assumptions c15_racelaps_encode_never_wrong.
 Print Assumptions c15_small_durations_exact.
 Print Assumptions c15_small_durations_refused_beyond_range.
